@@ -8,7 +8,19 @@ from harness import oracle as orc
 from harness import kreal
 
 
+AC_HEADER = '''From Coq Require Import QArith List Bool Arith.
+Require Import XV.Model.Agop XV.Proofs.AgopProofs XV.Model.AgopCat.
+Import ListNotations. Open Scope Q_scope.
+Definition qclose (tol a b : Q) : bool := Qle_bool (a - b) tol && Qle_bool (b - a) tol.
+Fixpoint row_close (tol : Q) (x y : list Q) : bool :=
+  match x, y with [], [] => true | u :: x', v :: y' => qclose tol u v && row_close tol x' y' | _, _ => false end.
+Fixpoint rows_close (tol : Q) (A B : list (list Q)) : bool :=
+  match A, B with [], [] => true | a :: A', b :: B' => row_close tol a b && rows_close tol A' B' | _, _ => false end.
+'''
+
+
 def run(ck):
+    ac_cases, ac_meta = [], {}
     from harness import xr
     from xrfm.rfm_src import kernels as K
     ck.rule = ('mixes of 0-4 numerical columns and 1-4 categorical groups of 2-6 levels (interleaved column layouts), one-hot rows (all combinations for '
@@ -186,6 +198,17 @@ def run(ck):
                 ck.notes.append(f'get_agop raised on {desc}: {e!r}'[:200]); continue
             ck.count(f'agop outputs={nout} centring={centring}')
             # the fast path's gradients come from the fast kernel only through get_function_grads (dense formula on the expanded inputs)
+            # correspondence with Model/AgopCat.v: the executable model of get_agop_categorical is run inside Coq on the implementation's OWN gradient rows
+            if not centring and len(ac_cases) < ck.n(6, 24):
+                try:
+                    with xr.quiet():
+                        G = fast.get_function_grads(T(X), T(Z), T(coefs), mt).reshape(-1, d).double().numpy()
+                    tolA = 1e-9 * (1 + float(np.abs(Af).max()))
+                    ac_cases.append((f'ac{len(ac_cases)}', f'rows_close {coq_Q(tolA)} (get_agop_categorical {coq_nat(d)} {coq_Qmat(G.tolist())} '
+                                     f'{coq_list([coq_nat(v) for v in num_idx])} {coq_list([coq_list([coq_nat(v) for v in ix]) for ix in cat_idx])}) {coq_Qmat(Af.tolist())}'))
+                    ac_meta[f'ac{len(ac_cases) - 1}'] = dict(desc, nout=nout)
+                except Exception as e:
+                    ck.notes.append(f'get_function_grads raised on {desc}: {e!r}'[:200])
             devA = float(np.max(np.abs(Af - np.where(mask, Ad, 0.0))))
             if devA > 1e-8 * (1 + float(np.abs(Ad).max())):
                 ck.violation(f'{kn}: categorical AGOP differs from the dense AGOP restricted to the blocks by {devA:.3g} ({nout} outputs, centring={centring}) on {desc}',
@@ -262,6 +285,10 @@ def run(ck):
             r = int(dv.argmax())
             ck.violation(f'{kn_b}: categorical fast path differs from dense evaluation by {dv.max():.3g} at row {r} of a {nbig}-row call (rows 0..{nbig - 1}; first bad row {int((dv > 1e-9).argmax())}): '
                          f'fast {Kf_b[r].tolist()} vs dense {Kd_b[r].tolist()}', dict(kernel=kn_b, row=r, rows=nbig, x=Xb[r].tolist()), key=json.dumps(dict(site='fast-vs-dense-big', kernel=kn_b)))
+    resac = ck.run_bool_cases('agopcat', AC_HEADER, ac_cases, shard=6)
+    badac = [ac_meta[k] for k, v in resac.items() if v is not True]
+    ck.obligation(f'correspondence: get_agop_categorical of {len(ac_cases)} layouts == Model/AgopCat.v evaluated in Coq on the implementation\'s own gradient rows '
+                  f'(zero matrix + scatter of the numerical and every categorical block)', 'correspondence', not badac, f'first mismatches: {badac[:3]}')
     res = ck.run_lemma_files('cat', kreal.RHEADER, lemmas, shard=3, timeout=900)
     bad = [lmeta[k] for k, v in res.items() if not v]
     ck.obligation(f'correspondence: {len(lemmas)} fast-path kernel entries within tolerance of the Coq dense op-sequence model on the one-hot rows (interval-certified)',
